@@ -259,7 +259,8 @@ def _check(mod: Any, pid: str, tier: str, base_seed: int, workers: int, budget: 
         'wall_s': round(wall, 2),
         'violations': len(reported),
     }
-    if not harness_errors and runs > 0:
+    # evidence is about /repo itself: runs against a scratch copy (mutants, seeded changes: VERIF_REPO) leave no evidence file
+    if not harness_errors and runs > 0 and os.environ.get('VERIF_REPO', '/repo') in ('', '/repo'):
         os.makedirs(os.path.join(VERIF, 'evidence'), exist_ok=True)
         with open(os.path.join(VERIF, 'evidence', '%s.json' % pid), 'w') as f:
             json.dump(ev, f, indent=1, default=repr)
